@@ -286,3 +286,48 @@ prop(
         "a TLS/DTLS ClientHello is recognised by record type 0x16 and version byte 0x03 / 0xfe; the server name by the host bytes in the hello",
     ],
 )
+
+prop(
+    "C10",
+    configs={"quick": ["rel", "race"], "thorough": ["rel", "race"]},
+    batches={"quick": 16, "thorough": 16},
+    race_batches={"quick": 8, "thorough": 16},
+    timeout={"quick": 400, "thorough": 3000},
+    race_factor=2,
+    rule="TODO",
+    assumptions=[],
+)
+
+prop(
+    "C11",
+    configs={"quick": ["rel"], "thorough": ["rel", "race"]},
+    batches={"quick": 16, "thorough": 16},
+    race_batches={"quick": 8, "thorough": 16},
+    timeout={"quick": 400, "thorough": 3000},
+    race_factor=2,
+    rule="TODO",
+    assumptions=[],
+)
+
+prop(
+    "C12",
+    configs={"quick": ["rel", "race"], "thorough": ["rel", "race"]},
+    batches={"quick": 16, "thorough": 16},
+    race_batches={"quick": 8, "thorough": 16},
+    timeout={"quick": 400, "thorough": 3000},
+    race_factor=2,
+    max_counters=["max_concurrent_transactions"],
+    rule="TODO",
+    assumptions=[],
+)
+
+prop(
+    "C15",
+    configs={"quick": ["rel", "race"], "thorough": ["rel", "race"]},
+    batches={"quick": 16, "thorough": 16},
+    race_batches={"quick": 8, "thorough": 16},
+    timeout={"quick": 400, "thorough": 3000},
+    race_factor=2,
+    rule="TODO",
+    assumptions=[],
+)
